@@ -125,7 +125,7 @@ ADDED = {  # what the seeded change led to in the machinery (empty: the target c
  "C02c": "C02.g: the interpolation / extrapolation algebra of C20.a is shared with C02",
  "C02d": "C02.f: sibling template of the core.tensor constructors (fullc's documented dtype rule)",
  "C03d": "G14: an exact comparison may not pass one side through a conversion that can round",
- "C04c": "G12: a named parameter that the body never reads (the option is silently ignored)",
+ "C04c": "G18: a named parameter that the body never reads (the option is silently ignored)",
  "C05c": "G13: in-place update of a tensor the function does not own (property values, component results, parameters, views)",
  "C06c": "C06.f: every delay record is registered so that the dt / delay setters reach it (shared with C04.e)",
  "C06d": "generic-rule sweep (G2 swapped positional roles) in the quick tier, also over the supporting code of a property",
